@@ -169,7 +169,7 @@ class RunMonitor:
         if self.fault is not None and self.fault.get("delivered"):
             self.fault["called_after"] = self.fault.get("called_after", 0) + 1
         try:
-            res = P.fun(x)
+            res = self._scripted_value(xx, phase) if P.target.get("kind") == "scripted" else P.fun(x)
         except BaseException as e:  # pragma: no cover (raw targets do not raise)
             ev["exc"] = repr(e)
             raise
@@ -178,6 +178,37 @@ class RunMonitor:
         else:
             ev["y"], ev["s"] = float(res), None
         return res
+
+    def _scripted_value(self, xx, phase):
+        """Outcome injection at the target: the value returned at a NEW point is chosen from a per-phase
+        script over {S: improves on everything seen by 2.0 (> any forcing function), I: improves by 1e-5
+        (< tol_fun: 'incremental'), F: worse than everything seen, T: ties the best}.  Values are cached
+        per point, so the target remains a deterministic function of x.  This drives the controller through
+        search/poll outcome sequences (long success streaks at the mesh cap, alternations, all-fail, ties)
+        that smooth landscapes never produce."""
+        t = self.P.target
+        st = self.__dict__.setdefault("_script", {"cache": {}, "best": 0.0, "i": {"search": 0, "poll": 0, "other": 0}})
+        key = xx.tobytes()
+        if key in st["cache"]:
+            return st["cache"][key]
+        ph = phase if phase in ("search", "poll") else "other"
+        pat = t.get(ph) or "F"
+        o = pat[st["i"][ph] % len(pat)]
+        st["i"][ph] += 1
+        if not st["cache"]:
+            v = 0.0
+        elif o == "S":
+            v = st["best"] - 2.0
+        elif o == "I":
+            v = st["best"] - 1e-5
+        elif o == "T":
+            v = st["best"]
+        else:
+            v = st["best"] + 1.0 + 0.01 * (len(st["cache"]) % 7)
+        st["best"] = min(st["best"], v)
+        st["cache"][key] = v
+        self.c("scripted_outcomes." + ph + "." + o)
+        return v
 
     def _deliver_fault(self, x, ev):
         kind = self.fault["kind"]
